@@ -267,10 +267,11 @@ def run(chk, prog):
     idf = prog.fn("vfps::Identity::apply", nparams=0)
     chk.used(idf)
     s = I.scan(idf)
-    cp = [c for c in s.calls if c.callee == "std::copy_n"]
-    A.require(len(cp) == 1, "Identity::apply: expected one copy_n")
-    ln = S.norm(cp[0].args[1]) if cp[0].args[1] is not None else None
-    chk.check(ln is not None and sp.expand(ln - N * N * B) == 0, "R4", A.loc(idf, {"line": cp[0].line}),
+    from .common import bulk_copies
+    cp = bulk_copies(s)
+    A.require(len(cp) == 1, "Identity::apply: expected one block copy (copy_n / copy / memcpy)")
+    ln = S.norm(cp[0][1]) if cp[0][1] is not None else None
+    chk.check(ln is not None and sp.expand(ln - N * N * B) == 0, "R4", A.loc(idf, {"line": cp[0][3]}),
               "Identity copies all B blocks of N*N cells (length %s)" % ln, "Identity:length:%s" % ln)
     wu = prog.fn("vfps::WakePotentialMap::update", nparams=0)
     chk.used(wu)
